@@ -1611,4 +1611,10 @@ _O = ("cpp/symops.cpp + gen/symops.py: the same for whole public operations on s
       "coefficients and concrete windows/orders (coq/gen/OpsGen_*.v, coq/Proofs_OpsTac.v, Properties_%s_O.v); finite scenario lists")
 for _c in ('C02', 'C03', 'C04', 'C06', 'C07'):
     PROPS[_c]['trusted_extra'] = list(PROPS[_c].get('trusted_extra', [])) + [_K % _c] + ([_O % _c] if _c != 'C02' else [])
-
+_P = ("cpp/symops2.cpp + gen/symops2.py: operations that branch on scalar values (evaluation, grid construction and search, "
+      "predicates, interpolation assembly, the generator) run concolically over the symbolic scalar: the comparisons executed "
+      "and their outcomes are the path condition, stated as hypotheses of the generated lemma (coq/gen/PathGen_*.v, "
+      "coq/Proofs_PathTac.v with a reflexive order-decision procedure, Properties_%s_P.v); every lemma comes with an Example "
+      "at Qc showing its path condition satisfiable; finite scenario lists")
+for _c in ('C01', 'C02', 'C11', 'C12', 'C15'):
+    PROPS[_c]['trusted_extra'] = list(PROPS[_c].get('trusted_extra', [])) + [_P % _c]
